@@ -494,6 +494,15 @@ def check_many_clips_native(p, profile='debug'):
     """one cell that goes through more than 256 effective clips: a ring of 300 generators seen in angular order, then one from above"""
     import math
     from . import oracle as OR
+    # the call sequence of the targeted history, on the real SimpleCycle
+    for prof in ('debug', 'release'):
+        for period in (256, 512):
+            o = engine.native(['cycle_history %d' % period], prof)[0]
+            if o[0] != 'ok':
+                return 'SimpleCycle panics after %d resets: %s [%s build]' % (period + 1, ' '.join(o[1:10]), prof)
+            if o[1] != 'Ok' or o[2] != '4' or set(o[3:]) != {'0', '1', '2', '6'}:
+                return ('one SimpleCycle over 9 planes: init(6,7,8), %d resets over planes 0..5, init(0,1,2); then try_extend(6,1,0) gives %s with cycle %s - a fresh cycle '
+                        'gives Ok and 0 -> 6 -> 1 -> 2 [%s build]' % (period - 1, o[1], ' '.join(o[3:]), prof))
     for nn in (300, 520):
         gens = [[0.5, 0.5, 0.3]]
         for k in range(nn):
